@@ -119,5 +119,19 @@ func Verif_C19_ApplyEntry_ExactlyOnce() {
 	s1, ok1 := nd.remoteSyncedStates.GetState("src")
 	s2, ok2 := m2.GetState("src")
 	vsym.Assert(ok1 == ok2 && s1.SyncedTerm == s2.SyncedTerm && s1.SyncedIndex == s2.SyncedIndex, "Clone/RestoreStates carry the position unchanged")
+	// (e) restoring a snapshot on a replica that already holds positions (a follower that receives a
+	// snapshot, a node rolled back to a backup): the data becomes the snapshot's, so the positions must
+	// become exactly the snapshot's too - whatever was recorded before, newer or older, for this or
+	// another source cluster. A position kept from before would make replay skip (or repeat) entries.
+	m3 := newRemoteSyncedStateMgr()
+	if vsym.Choose("prior.src", 2) == 1 {
+		m3.UpdateState("src", SyncedState{SyncedTerm: vsym.U64("q.term"), SyncedIndex: vsym.U64("q.index")})
+	}
+	m3.UpdateState("other", SyncedState{SyncedTerm: vsym.U64("o.term"), SyncedIndex: vsym.U64("o.index")})
+	m3.RestoreStates(clone)
+	s3, ok3 := m3.GetState("src")
+	vsym.Assert(ok1 == ok3 && s1.SyncedTerm == s3.SyncedTerm && s1.SyncedIndex == s3.SyncedIndex, "a restored snapshot replaces the recorded position, whatever was recorded before")
+	_, okOther := m3.GetState("other")
+	vsym.Assert(!okOther, "a source cluster absent from the snapshot has no position after the restore")
 	vsym.Reach("end")
 }
